@@ -114,7 +114,9 @@ impl TargetEnvState {
                 let output = match target_output {
                     Some(target_output) => {
                         let output = ResourcesState::current(target_output).await?;
-                        input.adopt_files(target_input, &output).await;
+                        input
+                            .adopt_files(target_input, &output, target_output)
+                            .await;
                         Some(output)
                     }
                     None => None,
